@@ -32,6 +32,8 @@ pub mod vgenm;
 pub mod vmul;
 #[path = "vgend.rs"]
 pub mod vgend;
+#[path = "dupcast.rs"]
+pub mod dupcast;
 
 use crate::compile_util::*;
 use crate::util::*;
@@ -563,6 +565,10 @@ pub fn run_stream(args: &Args, out: &mut Out, hist: &mut Hist) {
         if k >= DUP_BASE {
             let mut trng = Rng::new(args.seed.wrapping_mul(0x2545_F491_4F6C_DD1D) ^ k.wrapping_mul(0x9E37_79B9_7F4A_7C15) ^ 0x6d766563);
             hist.add(&vgend::dup_program(k - DUP_BASE, &mut trng).1);
+            // the decision of the struct-cast arm against its Lean model
+            if let Err(pn) = guard(|| dupcast::run_program(&src, out, hist)) {
+                out.case(&format!("C02.dup\t{}\t-", one_line(&src)), "harness-panic", &format!("SKIP:harness panic {}", pn));
+            }
         }
         let mut arng = Rng::new(args.seed ^ (k.wrapping_mul(0x9E37_79B9_7F4A_7C15)) ^ 0x5eed);
         let mut local = Hist::default();
